@@ -1233,6 +1233,7 @@ inline std::string do_mutation(World& w, size_t m, S s, bool& threw)
     auto guard = [&](auto&& fn) {
         try
         {
+            vfshim::CallScope in_library_call;
             fn();
         }
         catch (const std::exception& ex)
@@ -1398,7 +1399,7 @@ inline void prop_c14(const vf::Case& c, Ctx& ctx)
     auto& sh = vfshim::state();
     vfshim::disarm();
     // ---- dry run: does the operation succeed, and how many fault points does it have?
-    uint64_t W = 0;
+    uint64_t W = 0, R = 0;
     std::string desc;
     {
         auto w = build_c14_state(schema, c, 1, std::min(n_extra, op_rec > 1 ? op_rec - 1 : 0));
@@ -1406,6 +1407,7 @@ inline void prop_c14(const vf::Case& c, Ctx& ctx)
         vfshim::reset_counters();
         desc = do_mutation(*w, m, S(c[op_rec]), threw);
         W = sh.fault_points;
+        R = sh.read_points;
         ctx.describe = "schema " + sname(schema) + " " + w->hist + " || " + desc + " [W=" + std::to_string(W) + "]";
         ctx.key = ctx.describe;
         if (threw || desc.find("(no") != std::string::npos || desc.find("(nothing") != std::string::npos || desc.find("(stale") != std::string::npos)
@@ -1446,6 +1448,30 @@ inline void prop_c14(const vf::Case& c, Ctx& ctx)
         VF_CHECK(!conn || sqlite3_get_autocommit(conn) != 0, where << ": a transaction was left open after the retry");
         if (k >= 2)
             ctx.label("k>=2");
+    }
+    // ---- second fault class: the statements the call only READS with (SELECT rows, BEGIN, PRAGMA). "If any SQL statement issued by a
+    // public mutating call fails": a read that fails after the call has already written must not leave that write behind either.
+    for (uint64_t k = 1; k <= R && k <= 40; ++k)
+    {
+        auto w = build_c14_state(schema, c, 1, std::min(n_extra, op_rec > 1 ? op_rec - 1 : 0));
+        std::string before = observe(w->db, w->v2);
+        bool threw = false;
+        vfshim::arm(k, true);
+        std::string d2 = do_mutation(*w, m, S(c[op_rec]), threw);
+        bool fired = sh.fired;
+        vfshim::disarm();
+        std::string where = std::string(v2 ? "2.x " : "1.x ") + mname + " leaves a partial update or an unusable library: " + ctx.describe + " fault at READ statement " +
+                            std::to_string(k) + "/" + std::to_string(R);
+        VF_CHECK(fired, where << ": the fault position was not reached (operation is not deterministic?)");
+        VF_CHECK(threw, where << ": the call did not report the failed statement");
+        sqlite3* conn = sh.last_db;
+        std::string after = observe(w->db, w->v2);
+        VF_CHECK(before == after, where << ": observable state changed although the call failed: " << first_diff_line(before, after));
+        VF_CHECK(!conn || sqlite3_get_autocommit(conn) != 0, where << ": a transaction was left open");
+        bool threw2 = false;
+        std::string d3 = do_mutation(*w, m, S(c[op_rec]), threw2);
+        VF_CHECK(!threw2, where << ": after the failed call the same operation no longer succeeds: " << d3);
+        ctx.label("read-fault");
     }
 }
 }  // namespace api
